@@ -79,7 +79,27 @@ fn verif_enum_shwap_types() {
             // a row with one share altered or two shares swapped is rejected
             let mut b = BytesMut::new(); row.encode(&mut b);
             let id = RowId::new(r, 3).unwrap();
-            if let Ok(dec) = Row::decode(id, &b) { cases += 1; if dec.verify(id, &dah).is_err() { println!("WITNESS C05: honest row {r} rejected after encode/decode"); panic!("witness"); } }
+            match Row::decode(id, &b) {
+                Ok(dec) => { cases += 1;
+                    if dec.shares != row.shares { println!("WITNESS C05: row {r} differs after encode/decode (left half on the wire) (width {width})"); panic!("witness"); }
+                    if dec.verify(id, &dah).is_err() { println!("WITNESS C05: honest row {r} rejected after encode/decode"); panic!("witness"); } }
+                Err(e) => { println!("WITNESS C05: honest row {r} does not decode: {e} (width {width})"); panic!("witness"); }
+            }
+            // the same row served as its RIGHT half (what a peer holding only the parity half sends): reconstruction
+            // must give the same row
+            let half = row.shares.len() / 2;
+            let raw_right = celestia_proto::shwap::Row {
+                shares_half: row.shares[half..].iter().map(|s| celestia_proto::shwap::Share { data: s.to_vec() }).collect(),
+                half_side: celestia_proto::shwap::row::HalfSide::Right.into(),
+            };
+            cases += 1;
+            match Row::from_raw(id, raw_right) {
+                Ok(dec) => {
+                    if dec.shares != row.shares { println!("WITNESS C05: reconstructing row {r} from its right half returned a different row (width {width})"); panic!("witness"); }
+                    if dec.verify(id, &dah).is_err() { println!("WITNESS C05: row {r} reconstructed from its right half is rejected (width {width})"); panic!("witness"); }
+                }
+                Err(e) => { println!("WITNESS C05: the right half of honest row {r} does not decode: {e} (width {width})"); panic!("witness"); }
+            }
         }}
         // ---- C06 ----
         if want("namespace") {
